@@ -279,3 +279,25 @@ fn rearming_to_the_deadline_of_the_first_registration_after_a_reschedule_takes_e
     assert!(log[1].1 == d0);
     check_never_early(&log);
 }
+
+/// round 9 (seed C12-6): a timer that re-armed itself from its callback is then removed / disabled: its re-armed entry is
+/// cancelled with it -- it neither fires nor cuts a later wait short
+#[test]
+fn a_rearmed_timer_that_is_removed_or_disabled_leaves_nothing_in_the_wheel() {
+    for variant in 0..3u8 {
+        let mut el: EventLoop<u32> = EventLoop::try_new().unwrap();
+        let h = el.handle();
+        let tok = h.insert_source(Timer::from_duration(Duration::from_millis(10)), move |_, _, n: &mut u32| {
+            *n += 1;
+            if variant == 1 { TimeoutAction::ToInstant(Instant::now() + Duration::from_millis(100)) } else { TimeoutAction::ToDuration(Duration::from_millis(100)) }
+        }).unwrap();
+        let mut n = 0;
+        el.dispatch(Duration::from_millis(200), &mut n).unwrap();
+        assert_eq!(n, 1);
+        if variant == 2 { h.disable(&tok).unwrap(); } else { h.remove(tok); }
+        let t = Instant::now();
+        el.dispatch(Duration::from_millis(400), &mut n).unwrap();
+        assert_eq!(n, 1, "variant {}: a removed/disabled timer fired", variant);
+        assert!(t.elapsed() >= Duration::from_millis(390), "variant {}: dispatch returned after {:?} although nothing was armed (timeout 400 ms)", variant, t.elapsed());
+    }
+}
